@@ -72,6 +72,7 @@ CLAUSES.update({c: ["C18"] for c in (
     "WrongRequest", "WrongPort", "WrongDestination", "TooManyRequests", "RequestOffSchedule", "RequestAfterAnswer",
     "SendAfterClose", "DiscoverRaised", "DuplicateEntry", "SpuriousEntry", "MissingEntry", "SocketLeftOpen", "NoRequest",
     "DiscoverHangs", "GaveUpEarly")})
+CLAUSES.update({c: ["C19"] for c in ("AttributesDiffer", "AcceptanceDiffers", "FrameMissing", "MeaningDiffers")})
 
 
 def lower_discovery(trace):
